@@ -100,4 +100,20 @@ theorem asm_lang {tb : List (Nat × BTR)} {manual : List ManualEdge} {fnAddr : N
       ∀ w, Lang f.cfg w ↔ Lang { st.cfg with entry := some be } w :=
   C06Asm.asm_lang hg h
 
+open Falcon.CfgEdit Falcon.Assemble in
+/-- the work list returns a table keyed by distinct addresses that is closed under function address, manual-edge
+    ends and successors, and whose entries are the oracle's answers (or the empty-window result) -/
+theorem asm_discover {oracle : Nat → Option (Res BTR)} {manual : List ManualEdge} {fnAddr fuel : Nat}
+    {tb : List (Nat × BTR)} (h : discover oracle manual fnAddr fuel = .ok tb) :
+    (tb.map (·.1)).Nodup ∧ C06Asm.Closed tb manual fnAddr ∧
+    (∀ p ∈ tb, (oracle p.1 = none ∧ p.2 = emptyResult p.1) ∨ oracle p.1 = some (.ok p.2)) :=
+  C06Asm.discover_spec h
+
+open Falcon.CfgEdit Falcon.Assemble in
+/-- after the work list the assembly never panics (`block_indices[…]` always finds its key) -/
+theorem asm_no_panic {oracle : Nat → Option (Res BTR)} {manual : List ManualEdge} {fnAddr fuel : Nat}
+    {tb : List (Nat × BTR)} (ho : C06Asm.OracleWF oracle) (h : discover oracle manual fnAddr fuel = .ok tb) :
+    assemble tb manual fnAddr ≠ .panic :=
+  C06Asm.asm_no_panic ho h
+
 end Falcon.C06
